@@ -282,8 +282,8 @@ func c18Families() []c18Family {
 			return s
 		}
 	}
-	docs := []string{`<r X-y="1 " n:z="t" xmlns:n="u"><A-b> v </A-b><k>1.5</k><k a="true">x &amp; y</k><e/><stream><s>1</s></stream></r>`, `<k>NaN</k>`, ` lead<a>t<b/></a>`}
-	seqDoc := `<r X-y="1 " xmlns:n="u"><!-- c --><n:a> v </n:a><k>1.5</k><?p i?><k>x &amp; y</k></r>`
+	docs := []string{`<r X-y="1 " n:z="t" q="a&amp;b&lt;'" xmlns:n="u"><A-b> v </A-b><k>1.5</k><k a="true">x &amp; y</k><e/><stream><s>1</s></stream></r>`, `<k>NaN</k>`, ` lead<a>t<b/></a>`}
+	seqDoc := `<r X-y="1 " q="a&amp;b&lt;'" xmlns:n="u"><!-- c --><n:a> v </n:a><k>1.5</k><?p i?><k>x &amp; y</k></r>`
 	keyDeps := append([]string{}, keyVars...)
 	decDeps := append([]string{"attrPrefix", "lenAttrPrefix", "lowerCase", "snakeCaseKeys", "decodeSimpleValuesAsMap", "disableTrimWhiteSpace", "trimRunes", "includeTagSeqNum", "xmlEscapeCharsDecoder", "handleXMPPStreamTag", "textK"})
 	castDeps := []string{"castToInt", "castToFloat", "castToBool", "castNanInf", "checkTagToSkip"}
